@@ -25,6 +25,7 @@ import (
 	"sync"
 	"time"
 
+	"github.com/uber-go/tally/v4/internal/verifhook"
 	"go.uber.org/atomic"
 )
 
@@ -205,12 +206,14 @@ func newRootScope(opts ScopeOptions, interval time.Duration) *scope {
 
 // report dumps all aggregated stats into the reporter. Should be called automatically by the root scope periodically.
 func (s *scope) report(r StatsReporter) {
+	verifhook.AtRLock("sr_c", &s.cm)
 	s.cm.RLock()
 	for name, counter := range s.counters {
 		counter.report(s.fullyQualifiedName(name), s.tags, r)
 	}
 	s.cm.RUnlock()
 
+	verifhook.AtRLock("sr_g", &s.gm)
 	s.gm.RLock()
 	for name, gauge := range s.gauges {
 		gauge.report(s.fullyQualifiedName(name), s.tags, r)
@@ -219,6 +222,7 @@ func (s *scope) report(r StatsReporter) {
 
 	// we do nothing for timers here because timers report directly to ths StatsReporter without buffering
 
+	verifhook.AtRLock("sr_h", &s.hm)
 	s.hm.RLock()
 	for name, histogram := range s.histograms {
 		histogram.report(s.fullyQualifiedName(name), s.tags, r)
@@ -227,12 +231,14 @@ func (s *scope) report(r StatsReporter) {
 }
 
 func (s *scope) cachedReport() {
+	verifhook.AtRLock("sr_c", &s.cm)
 	s.cm.RLock()
 	for _, counter := range s.countersSlice {
 		counter.cachedReport()
 	}
 	s.cm.RUnlock()
 
+	verifhook.AtRLock("sr_g", &s.gm)
 	s.gm.RLock()
 	for _, gauge := range s.gaugesSlice {
 		gauge.cachedReport()
@@ -241,6 +247,7 @@ func (s *scope) cachedReport() {
 
 	// we do nothing for timers here because timers report directly to ths StatsReporter without buffering
 
+	verifhook.AtRLock("sr_h", &s.hm)
 	s.hm.RLock()
 	for _, histogram := range s.histogramsSlice {
 		histogram.cachedReport()
@@ -252,18 +259,22 @@ func (s *scope) cachedReport() {
 func (s *scope) reportLoop(interval time.Duration) {
 	ticker := time.NewTicker(interval)
 	defer ticker.Stop()
+	verifhook.Ticker(ticker)
 
 	for {
+		verifhook.At("rl_select")
 		select {
 		case <-ticker.C:
 			s.reportLoopRun()
 		case <-s.done:
+			verifhook.At("rl_exit")
 			return
 		}
 	}
 }
 
 func (s *scope) reportLoopRun() {
+	verifhook.At("rl_tick")
 	if s.closed.Load() {
 		return
 	}
@@ -283,10 +294,12 @@ func (s *scope) reportRegistry() {
 
 func (s *scope) Counter(name string) Counter {
 	name = s.sanitizer.Name(name)
+	verifhook.AtRLock("gc_probe", &s.cm)
 	if c, ok := s.counter(name); ok {
 		return c
 	}
 
+	verifhook.AtLock("gc_lock", &s.cm)
 	s.cm.Lock()
 	defer s.cm.Unlock()
 
@@ -319,10 +332,12 @@ func (s *scope) counter(sanitizedName string) (Counter, bool) {
 
 func (s *scope) Gauge(name string) Gauge {
 	name = s.sanitizer.Name(name)
+	verifhook.AtRLock("gg_probe", &s.gm)
 	if g, ok := s.gauge(name); ok {
 		return g
 	}
 
+	verifhook.AtLock("gg_lock", &s.gm)
 	s.gm.Lock()
 	defer s.gm.Unlock()
 
@@ -354,10 +369,12 @@ func (s *scope) gauge(name string) (Gauge, bool) {
 
 func (s *scope) Timer(name string) Timer {
 	name = s.sanitizer.Name(name)
+	verifhook.AtRLock("gt_probe", &s.tm)
 	if t, ok := s.timer(name); ok {
 		return t
 	}
 
+	verifhook.AtLock("gt_lock", &s.tm)
 	s.tm.Lock()
 	defer s.tm.Unlock()
 
@@ -390,6 +407,7 @@ func (s *scope) timer(sanitizedName string) (Timer, bool) {
 
 func (s *scope) Histogram(name string, b Buckets) Histogram {
 	name = s.sanitizer.Name(name)
+	verifhook.AtRLock("gh_probe", &s.hm)
 	if h, ok := s.histogram(name); ok {
 		return h
 	}
@@ -403,6 +421,7 @@ func (s *scope) Histogram(name string, b Buckets) Histogram {
 		htype = durationHistogramType
 	}
 
+	verifhook.AtLock("gh_lock", &s.hm)
 	s.hm.Lock()
 	defer s.hm.Unlock()
 
@@ -525,20 +544,25 @@ func (s *scope) Close() error {
 	//
 	// n.b. Concurrent callers are serialized, so that each of them returns
 	//      only once the shutdown performed by the first one is complete.
+	verifhook.AtMutex("cl_mu", &s.closeMu)
 	s.closeMu.Lock()
 	defer s.closeMu.Unlock()
 
+	verifhook.At("cl_cas")
 	if !s.closed.CAS(false, true) {
 		return nil
 	}
 
+	verifhook.At("cl_done")
 	close(s.done)
 
 	if s.root {
 		// Wait for the report loop to exit: a periodic pass that is still in
 		// flight finishes first, and none is running or can start once Close
 		// has returned. Only then run the final pass and release the registry.
+		verifhook.At("cl_wait")
 		s.wg.Wait()
+		verifhook.At("cl_report")
 		s.reportRegistry()
 		s.registry.purgeIfRootClosed()
 		if closer, ok := s.baseReporter.(io.Closer); ok {
@@ -550,9 +574,13 @@ func (s *scope) Close() error {
 }
 
 func (s *scope) clearMetrics() {
+	verifhook.AtLock("cm_c", &s.cm)
 	s.cm.Lock()
+	verifhook.AtLock("cm_g", &s.gm)
 	s.gm.Lock()
+	verifhook.AtLock("cm_t", &s.tm)
 	s.tm.Lock()
+	verifhook.AtLock("cm_h", &s.hm)
 	s.hm.Lock()
 	defer s.cm.Unlock()
 	defer s.gm.Unlock()
